@@ -24,7 +24,7 @@ type C14Case struct {
 	Rels      []C14Rel `json:"rels"`
 	PreTerm   bool     `json:"pre_term"`    // the remote target terminates (normally) before the fault
 	InFlight  string   `json:"in_flight"`   // "" | call | important
-	Fault     string   `json:"fault"`       // cutall | cutone | stop | crash | restart | partition
+	Fault     string   `json:"fault"`       // cutall | cutone | stop | crash | restart | partition | termcrash | netstop (the observers' node stops its network)
 	FaultAtMs int      `json:"fault_at_ms"` // relative to the start of the in-flight request
 	RestartMs int      `json:"restart_ms"`  // restart: delay before the node comes back
 	Segment   bool     `json:"segment"`
@@ -70,7 +70,7 @@ func (c14) Components() ([]string, []string) {
 
 func (c14) Generate(r *simkit.Rand, tier string) any {
 	c := &C14Case{Pool: r.Range(1, 3), PreTerm: r.Chance(0.25), InFlight: simkit.Pick(r, "", "call", "call", "important"),
-		Fault: simkit.Pick(r, "cutall", "cutone", "stop", "crash", "restart", "restart", "partition", "partition", "termcrash", "termcrash"), Segment: r.Bool()}
+		Fault: simkit.Pick(r, "cutall", "cutone", "stop", "crash", "restart", "restart", "partition", "partition", "termcrash", "termcrash", "netstop"), Segment: r.Bool()}
 	c.TermGapMs = simkit.Pick(r, -1, -1, -1, 0, 1, 2, 3, 4, 5, 7)
 	c.Phase2 = r.Chance(0.6)
 	if c.Fault == "termcrash" {
@@ -276,11 +276,15 @@ func (c14) Run(e *simkit.Env, cc any) {
 				return
 			}
 			switch c.Fault {
-			case "stop", "crash", "termcrash":
+			case "stop", "crash", "termcrash", "netstop":
 			default:
 				return // the node comes back (or never went away): renewed subscriptions are legitimate
 			}
 			e.Settle(10 * time.Second)
+			if ps := e.InternalPanics(); len(ps) > 0 {
+				e.Fail("C14/panic", "fault %s: code of the repository panicked in a process that subscribes to the lost node again: %s", c.Fault, ps[0])
+				return
+			}
 			mu.Lock()
 			d, k, le := downs, okAgain, lastErr
 			mu.Unlock()
@@ -641,6 +645,13 @@ func (c14) Run(e *simkit.Env, cc any) {
 		sn.Refuse("h2", true)
 		sn.Refuse("h1", true)
 		sn.CutAll()
+	case "netstop":
+		// the observers' own node switches its network off and keeps running
+		e.Fault("network-stop")
+		if err := a.NetworkStop(); err != nil {
+			e.Fail("C14/unexpected-failure", "NetworkStop: %v", err)
+			return
+		}
 	}
 	e.Settle(8 * time.Second)
 	if c.Fault == "partition" {
